@@ -138,6 +138,8 @@ func c3ChunkFaults(r *zzverif.Rng, want int, allowStall bool) []c3Chunk {
 		{src: "flip", flip: want - 1, cut: -1, end: "eof"},
 	}
 	if allowStall {
+		// single-part layers only (like stalls): the caller interrupts the pull
+		out = append(out, c3Body_("honest", "cancel", cut), c3Body_("honest", "cancel", 0), c3Body_("full", "cancel", cut))
 		out = append(out, c3Body_("honest", "stall", cut), c3Body_("honest", "stall", 0),
 			c3Chunk{src: "junk", junk: []byte("e"), cut: -1, end: "stall"})
 	}
